@@ -37,6 +37,10 @@ BREAKING = [
     ("recv-finalise-without-completeness", RECV, "            && !(self.is_file_transfer() && self.has_naks())", "            && !(self.is_file_transfer() && self.saved_segments.len() > 1)", {"C04": 1}),
     ("recv-fault-default-ignore", RECV, ".unwrap_or(&FaultHandlerAction::Cancel)\n        {\n            FaultHandlerAction::Ignore", ".unwrap_or(&FaultHandlerAction::Ignore)\n        {\n            FaultHandlerAction::Ignore", {"C17": 1}),
     ("send-abandon-progress-0", SEND, "            progress: self.get_progress(),\n        }));\n\n        self.status = TransactionStatus::Terminated;", "            progress: 0,\n        }));\n\n        self.status = TransactionStatus::Terminated;", {"C20": 1}),
+    ("send-suspend-drops-file-handle", SEND, "        self.state = TransactionState::Suspended;\n\n        self.send_indication(Indication::Suspended(SuspendIndication {",
+     "        self.state = TransactionState::Suspended;\n        self.file_handle = None;\n\n        self.send_indication(Indication::Suspended(SuspendIndication {", {"C07": 1}),   # seed C07_c
+    ("recv-nak-limit-on-raw-count", RECV, "                if self.timer.nak.timeout_occurred() {\n                    self.naks = self.get_all_naks();",
+     "                if self.timer.nak.timeout_occurred() {\n                    if self.timer.nak.limit_reached()\n                        && !self.handle_fault(Condition::NakLimitReached)?\n                    {\n                        return Ok(());\n                    }\n                    self.naks = self.get_all_naks();", {"C17": 1}),   # seed C17_c
     ("send-progress-accumulates", SEND, "self.sent_file_size = std::cmp::max(self.sent_file_size, offset + data.len() as u64);", "self.sent_file_size += offset + length as u64;", {"C20": 1}),
     ("send-timeout-fault-before-limit", SEND, "                    if self.timer.ack.limit_reached() {\n                        self.handle_fault(Condition::PositiveLimitReached)?",
      "                    if self.timer.ack.timeout_occurred() {\n                        self.handle_fault(Condition::PositiveLimitReached)?", {"C17": 1}),
